@@ -254,7 +254,7 @@ impl World for SighashWorld {
         "sighash"
     }
     fn generate(&self, p: &mut Prng, scenario: &str, _run: u64) -> Case {
-        let mut tx = TxSpec::draw(p, 5, 5);
+        let mut tx = TxSpec::draw_with_corpus(p, 5, 5, 6);
         if tx.n_in == 0 && p.chance(9, 10) {
             tx.n_in = 1;
         }
